@@ -1,6 +1,6 @@
 (* C03 — lemmas about the abstract scheduler table (tget / tsched / tremove / filters), about
    [dedup], [sort_by] and [slot_range]. *)
-From Verif Require Import Lib.Base Model.C03_ChainTime Model.C03_Controller.
+From Verif Require Import Lib.Base Model.C03_ChainTime Model.C03_Controller Model.C03_Spec.
 From Coq Require Import ZifyBool ZifyN ZifyNat Permutation.
 Open Scope N_scope.
 
@@ -122,7 +122,6 @@ Qed.
 (* ------------------------------------------------------------------------------------------- *)
 (* well-formed tables: one job per name *)
 
-Definition twf (t : table) : Prop := NoDup (map j_name t).
 
 Lemma twf_nil : twf [].
 Proof. constructor. Qed.
